@@ -673,15 +673,22 @@ fn moody_cast(rep: &mut Report, case_no: u64) {
                 t.get_mut(res).map(|o| o.hello())
             }
         }));
+        // Either the conversion is rejected by a panic, or the table does not consult the cast at
+        // this point at all (the `nightly` implementation reads the vtable once, at registration)
+        // and hands out the very resource. What must never happen: the *other* object (n == 77)
+        // comes out.
         if let Ok(x) = r {
-            MOODY_BAD.store(false, SeqCst);
-            rep.violation(
-                "bad_cast_accepted",
-                &format!("after correct conversions of the same type a cast that returns a different address was accepted by {} and yielded {:?}", ["get", "iter", "iter_mut", "get_mut"][path], x),
-                case_no,
-                J::Null,
-            );
-            return;
+            if x != Some(5) {
+                MOODY_BAD.store(false, SeqCst);
+                rep.violation(
+                    "bad_cast_accepted",
+                    &format!("after correct conversions of the same type a cast that returns a different address was followed by {}: it yielded {:?}, not the resource (5)", ["get", "iter", "iter_mut", "get_mut"][path], x),
+                    case_no,
+                    J::Null,
+                );
+                return;
+            }
+            rep.metric("bad_cast_not_consulted_the_resource_itself_came_out", 1);
         }
     }
     MOODY_BAD.store(false, SeqCst);
